@@ -301,8 +301,9 @@ def main():
         env["VERIF_SHARD"] = str(k)
         env["VERIF_SHARDS"] = str(shards)
         env["VERIF_RUNDIR"] = rdir
-        if "gomaxprocs" in tspec:
-            env["GOMAXPROCS"] = str(tspec["gomaxprocs"])
+        if "gomaxprocs_list" in tspec:
+            gl = tspec["gomaxprocs_list"]
+            env["GOMAXPROCS"] = str(gl[k % len(gl)])
         rseed = (seed * 64 + k) % (1 << 63) or 1
         cmd = [binary, "-test.v", "-test.timeout=%ds" % tspec.get("timeout", 600)]
         if replay and replay.endswith(".fail"):
